@@ -1,5 +1,193 @@
 package main
 
+import (
+	"bufio"
+	"bytes"
+	"fmt"
+	"os"
+	"os/exec"
+	"path/filepath"
+	"sort"
+	"strings"
+	"sync"
+)
+
+// A fixture is /verif/mutants/<prop>/<name>.patch. Leading comment lines:
+//   # kind: broken|benign
+//   # expect: <substring of "RULE construct"> (broken only; may repeat)
+//   # why: free text
+type fixture struct {
+	Name   string
+	Path   string
+	Kind   string
+	Expect []string
+}
+
+func readFixtures(dir string) []fixture {
+	ents, err := os.ReadDir(dir)
+	if err != nil {
+		return nil
+	}
+	var out []fixture
+	for _, en := range ents {
+		if !strings.HasSuffix(en.Name(), ".patch") {
+			continue
+		}
+		fx := fixture{Name: strings.TrimSuffix(en.Name(), ".patch"), Path: filepath.Join(dir, en.Name()), Kind: "broken"}
+		f, err := os.Open(fx.Path)
+		if err != nil {
+			continue
+		}
+		sc := bufio.NewScanner(f)
+		for sc.Scan() {
+			l := sc.Text()
+			if !strings.HasPrefix(l, "#") {
+				break
+			}
+			l = strings.TrimSpace(strings.TrimPrefix(l, "#"))
+			switch {
+			case strings.HasPrefix(l, "kind:"):
+				fx.Kind = strings.TrimSpace(strings.TrimPrefix(l, "kind:"))
+			case strings.HasPrefix(l, "expect:"):
+				fx.Expect = append(fx.Expect, strings.TrimSpace(strings.TrimPrefix(l, "expect:")))
+			}
+		}
+		f.Close()
+		out = append(out, fx)
+	}
+	sort.Slice(out, func(i, j int) bool { return out[i].Name < out[j].Name })
+	return out
+}
+
+func scratchBase() string {
+	if s := os.Getenv("VERIF_SCRATCH"); s != "" {
+		return s
+	}
+	return "/var/tmp"
+}
+
+// runFixture copies repo to a scratch dir, applies the patch and runs this
+// binary on it. Returns the violation lines, whether the patch applied and
+// whether the variant loaded (compiled).
+func runFixture(repo string, p *Property, fx fixture) (lines []string, applied bool, loaded bool, errs string) {
+	dir, err := os.MkdirTemp(scratchBase(), "dbcheck-selftest-")
+	if err != nil {
+		return nil, false, false, err.Error()
+	}
+	defer os.RemoveAll(dir)
+	src := filepath.Join(dir, "repo")
+	vdir := filepath.Join(dir, "verif")
+	_ = os.MkdirAll(vdir, 0o755)
+	cp := exec.Command("rsync", "-a", "--exclude=.git", "--exclude=single_nodehost_test_dir_safe_to_delete", repo+"/", src+"/")
+	if out, err := cp.CombinedOutput(); err != nil {
+		return nil, false, false, "copy: " + string(out)
+	}
+	ap := exec.Command("git", "apply", "--whitespace=nowarn", fx.Path)
+	ap.Dir = src
+	ap.Env = append(os.Environ(), "GIT_DIR=/nonexistent", "GIT_CEILING_DIRECTORIES="+dir)
+	if out, err := ap.CombinedOutput(); err != nil {
+		return nil, false, false, "apply: " + strings.TrimSpace(string(out))
+	}
+	self, _ := os.Executable()
+	cmd := exec.Command(self, "-prop", p.ID, "-tier", "quick", "-repo", src, "-verif", vdir, "-noselftest")
+	var buf bytes.Buffer
+	cmd.Stdout = &buf
+	cmd.Stderr = &buf
+	_ = cmd.Run()
+	loaded = true
+	for _, l := range strings.Split(buf.String(), "\n") {
+		t := strings.TrimSpace(l)
+		if strings.HasPrefix(t, "VIOLATION ") || strings.HasPrefix(t, "UNDECIDED ") {
+			if strings.Contains(t, " LOAD ") {
+				loaded = false
+			}
+			if !strings.HasPrefix(t, "VIOLATION property=") {
+				lines = append(lines, t)
+			}
+		}
+	}
+	return lines, true, loaded, ""
+}
+
 func runSelfTest(verifDir, repo string, p *Property) (map[string]interface{}, *Report) {
-	return nil, nil
+	fxs := readFixtures(filepath.Join(verifDir, "mutants", p.ID))
+	rep := &Report{Prop: p.ID, cfg: "selftest"}
+	type res struct {
+		fx      fixture
+		lines   []string
+		applied bool
+		loaded  bool
+		errs    string
+	}
+	results := make([]res, len(fxs))
+	sem := make(chan struct{}, 4)
+	var wg sync.WaitGroup
+	for i, fx := range fxs {
+		wg.Add(1)
+		go func(i int, fx fixture) {
+			defer wg.Done()
+			sem <- struct{}{}
+			defer func() { <-sem }()
+			l, a, ld, es := runFixture(repo, p, fx)
+			results[i] = res{fx, l, a, ld, es}
+		}(i, fx)
+	}
+	wg.Wait()
+	killed, benignOK, skipped := 0, 0, 0
+	var detail []map[string]interface{}
+	for _, rs := range results {
+		d := map[string]interface{}{"fixture": rs.fx.Name, "kind": rs.fx.Kind}
+		switch {
+		case !rs.applied:
+			skipped++
+			d["result"] = "skipped: patch does not apply to the current tree (" + rs.errs + ")"
+		case !rs.loaded:
+			d["result"] = "variant does not type-check"
+			rep.add(Ob{Rule: "SELFTEST", Construct: rs.fx.Name, Pos: "-", OK: false, Kind: "undecided",
+				Detail: "fixture no longer compiles after applying; the self-test cannot tell whether the rule still fires"})
+		case rs.fx.Kind == "benign":
+			if len(rs.lines) == 0 {
+				benignOK++
+				d["result"] = "silent (as required)"
+				rep.add(Ob{Rule: "SELFTEST", Construct: rs.fx.Name, Pos: "-", OK: true, Detail: "benign variant: rules stay silent"})
+			} else {
+				d["result"] = "FALSE ALARM"
+				d["reports"] = rs.lines
+				rep.add(Ob{Rule: "SELFTEST", Construct: rs.fx.Name, Pos: "-", OK: false, Kind: "undecided",
+					Detail: "rules fire on a behaviour-preserving variant: " + strings.Join(rs.lines, " | ")})
+			}
+		default:
+			hit := len(rs.lines) > 0
+			for _, ex := range rs.fx.Expect {
+				found := false
+				for _, l := range rs.lines {
+					if strings.Contains(l, ex) {
+						found = true
+					}
+				}
+				if !found {
+					hit = false
+				}
+			}
+			if hit {
+				killed++
+				d["result"] = "reported"
+				d["reports"] = rs.lines
+				rep.add(Ob{Rule: "SELFTEST", Construct: rs.fx.Name, Pos: "-", OK: true, Detail: "broken variant is reported and the report names the instance"})
+			} else {
+				d["result"] = "MISSED"
+				d["reports"] = rs.lines
+				rep.add(Ob{Rule: "SELFTEST", Construct: rs.fx.Name, Pos: "-", OK: false, Kind: "undecided",
+					Detail: fmt.Sprintf("broken variant not reported as expected %v; got %v", rs.fx.Expect, rs.lines)})
+			}
+		}
+		detail = append(detail, d)
+	}
+	st := map[string]interface{}{
+		"fixtures": len(fxs), "broken_reported": killed, "benign_silent": benignOK, "skipped_not_applicable": skipped, "detail": detail,
+	}
+	if len(fxs) == 0 {
+		return st, nil
+	}
+	return st, rep
 }
